@@ -671,23 +671,31 @@ func (x *fnExec) havocLoop(st *State, li *loopInfo) {
 				hasFresh = true
 			}
 		}
-		if hasFresh {
-			// callees with `modifies fresh`: everything may differ at objects allocated since the loop was entered
-			oldAlloc := st.heapGet(v, "$alloc", sInt)
-			snap := st.snapshot()
-			wasUnknown := st.unknownHavoc
-			x.havocAll(st)
-			st.unknownHavoc = wasUnknown
-			st.freshEpochs[st.epoch] = &freshEpoch{snap: snap, oldAlloc: oldAlloc}
-		} else {
-			// alloc may grow
-			x.bumpAlloc(st)
-		}
+		_ = hasFresh // callees with `modifies fresh` only allocate: unlisted arrays keep their symbols
+		// alloc may grow
+		x.bumpAlloc(st)
+		singles := x.loopSingleTargets(li)
 		for _, name := range mods {
 			if name == "$fresh" {
 				continue
 			}
-			st.heapHavoc(v, name, v.heapSorts[name])
+			old := st.heapGet(v, name, v.heapSorts[name])
+			nw := st.heapHavoc(v, name, v.heapSorts[name])
+			if tv, ok := singles[name]; ok && strings.HasPrefix(v.heapSorts[name], "(Array Int ") {
+				var conds []string
+				okAll := true
+				for _, t := range tv {
+					tt, has := st.vals[t]
+					if !has {
+						okAll = false
+						break
+					}
+					conds = append(conds, not(eq("r!l", tt.S)))
+				}
+				if okAll {
+					st.assume("(forall ((r!l Int)) (=> " + and(conds...) + " " + eq(sel(nw, "r!l"), sel(old, "r!l")) + "))")
+				}
+			}
 		}
 	}
 	// iterators advanced inside the loop
@@ -739,6 +747,52 @@ func (x *fnExec) loopModifies(li *loopInfo) ([]string, bool) {
 	}
 	sort.Strings(out)
 	return out, all
+}
+
+// loopSingleTargets: heap variables that the loop modifies only through map updates / deletes on map values defined
+// outside the loop. Those are havocked at the loop head for these maps only (all other maps keep their contents).
+func (x *fnExec) loopSingleTargets(li *loopInfo) map[string][]ssa.Value {
+	targets := map[string][]ssa.Value{}
+	other := map[string]bool{}
+	outside := func(v ssa.Value) bool {
+		if in, ok := v.(ssa.Instruction); ok {
+			return !li.body[in.Block()]
+		}
+		return true // parameters, free variables, constants
+	}
+	for b := range li.body {
+		for _, in := range b.Instrs {
+			var mval ssa.Value
+			var mt *types.Map
+			switch i := in.(type) {
+			case *ssa.MapUpdate:
+				mval = i.Map
+				mt, _ = i.Map.Type().Underlying().(*types.Map)
+			case *ssa.Call:
+				if bi, ok := i.Call.Value.(*ssa.Builtin); ok && bi.Name() == "delete" {
+					mval = i.Call.Args[0]
+					mt, _ = mval.Type().Underlying().(*types.Map)
+				}
+			}
+			names, all := x.instrModifies(in)
+			if all {
+				return nil
+			}
+			if mval != nil && mt != nil && outside(mval) {
+				for _, n := range x.mapHeapVars(mt) {
+					targets[n] = append(targets[n], mval)
+				}
+				continue
+			}
+			for _, n := range names {
+				other[n] = true
+			}
+		}
+	}
+	for n := range other {
+		delete(targets, n)
+	}
+	return targets
 }
 
 func (x *fnExec) chanHeapVars(et types.Type) []string {
@@ -963,6 +1017,23 @@ func (x *fnExec) modTargetHeaps(m string, c *FuncContract) ([]string, bool) {
 	}
 	if strings.HasPrefix(m, "chan(") {
 		m = "chan"
+	}
+	if m == "chanrecv" || m == "chansend" || m == "chanclose" {
+		x.chanHeapVars(types.Typ[types.Int])
+		x.chanHeapVars(types.Typ[types.String])
+		switch m {
+		case "chanrecv":
+			return []string{"CH_recvn", "CH_recva"}, false
+		case "chanclose":
+			return []string{"CH_closed"}, false
+		}
+		var out []string
+		for n := range v.heapSorts {
+			if strings.HasPrefix(n, "CH_sent") {
+				out = append(out, n)
+			}
+		}
+		return dedup(out), false
 	}
 	if m == "chan" {
 		var out []string
